@@ -78,6 +78,33 @@ def run_unit(unit_name, tier, seed):
     return out
 
 
+def helper_reach(meta, path, pid):
+    """short names of the functions (in this generated unit) that a function carrying an obligation of `pid` can call, transitively.
+    Textual call graph over the generated file (over-approximate by short name): used to decide which properties an UNTAGGED
+    contract failure in a helper leaves undecided (callers are verified against the helper's contract, not its body)."""
+    lines = open(path).read().split('\n')
+    fns = meta['functions']
+    short = lambda q: q.split('::')[-1]
+    names = {short(f[0]) for f in fns}
+    calls = {}
+    carries = set()
+    for q, l0, l1 in fns:
+        body = '\n'.join(lines[l0 - 1:l1])
+        calls.setdefault(short(q), set()).update(n for n in set(re.findall(r'\b([A-Za-z_]\w*)\s*\(', body)) if n in names and n != short(q))
+        ov = meta['overlays'].get(q, {})
+        if pid in ov.get('props', []) or any(pid in tag_props(t) for ln, ts in meta['tags'].items() if l0 <= int(ln) <= l1 for t in ts):
+            carries.add(short(q))
+    seen = set()
+    todo = list(carries)
+    while todo:
+        f = todo.pop()
+        for g in calls.get(f, ()):
+            if g not in seen:
+                seen.add(g)
+                todo.append(g)
+    return seen
+
+
 def assumption_scan(path):
     txt = open(path).read()
     found = []
@@ -124,6 +151,7 @@ def main(argv):
     known_hits = []
     undecided = []
     obligations = {}     # tag -> dict(status, unit, backend)
+    reach = {}
     fn_evidence = []
     assumptions = set()
     smt_ms = 0.0
@@ -179,6 +207,10 @@ def main(argv):
             if ov and (pid in ov[1].get('props', []) or any(t and pid in tag_props(t) for t, _ in ov[1]['ensures'])):
                 undecided.append('%s: untagged proof step failed in %s (%s at gen line %s): the proof needs repair; '
                                  'obligations of this function are not decided' % (un, fn, d['msg'], d['spans'][0]['l0'] if d['spans'] else '?'))
+            elif fn and fn.split('::')[-1] in reach.setdefault(un, helper_reach(meta, r['path'], pid)):
+                # a helper whose (untagged) contract is what callers carrying this property were verified against
+                undecided.append('%s: the contract of helper %s no longer verifies (%s at gen line %s); functions carrying %s obligations '
+                                 'call it and were checked against that contract, so they are not decided' % (un, fn, d['msg'], d['spans'][0]['l0'] if d['spans'] else '?', pid))
         # per-function evidence
         fmap = {f['function'].split('::', 1)[-1]: f for f in res['functions']}
         for p in meta['provenance']:
